@@ -370,7 +370,7 @@ func c18Run(c c18Case, res *WRes) {
 			return
 		}
 	}
-	if c.Flow == "revocation" && !crashed && o != nil && o.GoErr == "" && !lookupSentinel {
+	if c.Flow == "revocation" && !crashed && o != nil && o.RevokeClass() == "" && !lookupSentinel {
 		for _, t := range p.revoked {
 			if act, _ := w.Active(t); act {
 				viol("C18/revocation-reported-success-but-token-active/"+siteNoIdx, "a storage failure occurred during revocation, success was reported, but a token is still active", "error or effective revocation", site)
@@ -436,7 +436,7 @@ func c18Run(c c18Case, res *WRes) {
 		// the credential is still usable by its legitimate holder
 		if p.retry != nil && c.Flow != "refresh-reuse" && c.Flow != "code-replay" && !delivered(o) {
 			ro := p.retry()
-			if !delivered(ro) && !(c.Flow == "revocation" && ro.GoErr == "") {
+			if !delivered(ro) && !(c.Flow == "revocation" && ro.RevokeClass() == "") {
 				viol(fmt.Sprintf("C18/retry-refused-after-rolled-back-failure/%s/%s", c.Flow, siteNoIdx), fmt.Sprintf("flow %s: failure %s inside the transaction was rolled back, but the legitimate holder's retry is refused: %s", c.Flow, site, ro.GoErr), "retry succeeds", ro.JSON)
 			}
 		}
